@@ -149,6 +149,7 @@ package relationtuple
 //@   requires forall i in 0..len(deltas) :: deltas[i] != nil && (deltas[i].RelationTuple != nil ==> wfwiresubject(deltas[i].RelationTuple.Subject))
 //@   ensures err == nil ==> forall k in 0..len(filtered) :: filtered[k] != nil
 //@   loop 1 invariant (isnil(filtered) || fresh(filtered))
+//@   loop 1 invariant forall k in 0..len(filtered) :: filtered[k] != nil
 
 //@ func internalTuplesWithAction
 //@   props C04 C13
